@@ -49,6 +49,7 @@ type symEval struct {
 	over  map[types.Object]string // temporary term overrides (refinement idiom, inlined parameters)
 	depth int
 	ret   types.Object // pseudo-variable that collects the function's return expressions
+	lits  map[*ast.CompositeLit]symDef // enclosing clause of every composite literal
 }
 
 type implBinding struct {
@@ -123,6 +124,11 @@ func newSymEval(c *Ctx, p *packages.Package, fd *ast.FuncDecl, side string) *sym
 					}
 				}
 				return false
+			case *ast.CompositeLit:
+				if se.lits == nil {
+					se.lits = map[*ast.CompositeLit]symDef{}
+				}
+				se.lits[m] = symDef{nil, cl, sw, curIf, m.Pos()}
 			case *ast.ReturnStmt:
 				if len(m.Results) >= 1 {
 					se.defs[se.ret] = append(se.defs[se.ret], symDef{m.Results[0], cl, sw, curIf, m.Pos()})
@@ -498,6 +504,40 @@ func (se *symEval) callTerm(e *ast.CallExpr) string {
 		return se.term(e.Args[0])
 	}
 	callee := calleeOf(info, e)
+	// the shared getelementptr walk: gep.ResultType(elem, src, <index list built in a loop over the
+	// operand list>) and every wrapper that calls it (GEP-WALK, GEP-VLEN and GEP-SIB hold the
+	// wrappers to account) read as GEP(elem, src, operand list)
+	if callee != nil && len(e.Args) == 3 {
+		if callee == se.c.lookupFunc(pkgGEP, "ResultType") {
+			idx := "?indices"
+			if id, ok := unparen(e.Args[2]).(*ast.Ident); ok {
+				obj := info.ObjectOf(id)
+				ast.Inspect(se.fd.Body, func(n ast.Node) bool {
+					rs, ok := n.(*ast.RangeStmt)
+					if !ok {
+						return true
+					}
+					appends := false
+					ast.Inspect(rs.Body, func(m ast.Node) bool {
+						if as, ok := m.(*ast.AssignStmt); ok && len(as.Lhs) == 1 {
+							if l, ok := as.Lhs[0].(*ast.Ident); ok && info.ObjectOf(l) == obj {
+								appends = true
+							}
+						}
+						return true
+					})
+					if appends {
+						idx = se.term(rs.X)
+					}
+					return true
+				})
+			}
+			return "GEP(" + se.term(e.Args[0]) + ", " + se.term(e.Args[1]) + ", " + idx + ")"
+		}
+		if _, isWrapper := se.c.gepWrappers()[callee]; isWrapper {
+			return "GEP(" + se.term(e.Args[0]) + ", " + se.term(e.Args[1]) + ", " + se.term(e.Args[2]) + ")"
+		}
+	}
 	var args []string
 	for _, a := range e.Args {
 		args = append(args, se.term(a))
@@ -609,6 +649,17 @@ func ruleTYPAGREE(c *Ctx) []Obligation {
 	parser := map[*types.Named]side{}
 	c.eachFunc(pkgASM, func(p *packages.Package, fd *ast.FuncDecl, fn *types.Func) {
 		info := p.TypesInfo
+		// several literals of one type in one function (one per arm of a switch, each returned
+		// directly) are read like one literal whose Typ is assigned in the arms
+		perType := map[*types.Named][]symDef{}
+		var se0 *symEval
+		defer func() {
+			for n, ds := range perType {
+				if len(ds) > 1 {
+					parser[n] = side{se0.termOfDefs(ds, "Typ"), ds[0].pos, funcKey(fn)}
+				}
+			}
+		}()
 		ast.Inspect(fd.Body, func(nd ast.Node) bool {
 			cl, ok := nd.(*ast.CompositeLit)
 			if !ok {
@@ -625,6 +676,10 @@ func ruleTYPAGREE(c *Ctx) []Obligation {
 				if kv, ok := el.(*ast.KeyValueExpr); ok && exprString(kv.Key) == "Typ" {
 					se := newSymEval(c, p, fd, "asm")
 					parser[n] = side{se.term(kv.Value), kv.Pos(), funcKey(fn)}
+					se0 = se
+					d := se.lits[cl]
+					d.expr = kv.Value
+					perType[n] = append(perType[n], d)
 				}
 			}
 			return true
@@ -796,6 +851,7 @@ func (c *Ctx) helperSiblings() []Obligation {
 		if ps := fn.Type().(*types.Signature).Params(); ps.Len() == 2 {
 			tParam, idxParam = ps.At(0), ps.At(1)
 		}
+		acc := tParam
 		norm := func(e ast.Expr, tv, iv types.Object, recursive bool) string {
 			var render func(x ast.Expr) string
 			render = func(x ast.Expr) string {
@@ -849,7 +905,7 @@ func (c *Ctx) helperSiblings() []Obligation {
 					}
 				case *ast.AssignStmt:
 					if !recursive && len(st.Lhs) == 1 && len(st.Rhs) == 1 && st.Tok == token.ASSIGN {
-						if id, ok := st.Lhs[0].(*ast.Ident); ok && info.ObjectOf(id) == tParam {
+						if id, ok := st.Lhs[0].(*ast.Ident); ok && info.ObjectOf(id) == acc {
 							next = st.Rhs[0]
 						}
 					}
@@ -864,6 +920,15 @@ func (c *Ctx) helperSiblings() []Obligation {
 		}
 		for i, st := range fd.Body.List {
 			switch st := st.(type) {
+			case *ast.AssignStmt:
+				// the fold may accumulate in a local initialised from the type parameter (elemType := t)
+				if st.Tok == token.DEFINE && len(st.Lhs) == 1 && len(st.Rhs) == 1 {
+					if r, ok := unparen(st.Rhs[0]).(*ast.Ident); ok && info.ObjectOf(r) == tParam {
+						if l, ok := st.Lhs[0].(*ast.Ident); ok {
+							acc = info.ObjectOf(l)
+						}
+					}
+				}
 			case *ast.IfStmt:
 				if len(st.Body.List) == 1 && isReturn1(st.Body.List[0]) {
 					cond := strings.ReplaceAll(exprString(st.Cond), " ", "")
@@ -894,7 +959,7 @@ func (c *Ctx) helperSiblings() []Obligation {
 				// the fold returns the accumulated type
 				if i+1 < len(fd.Body.List) {
 					if r, ok := fd.Body.List[i+1].(*ast.ReturnStmt); ok && len(r.Results) == 1 {
-						if id, ok := unparen(r.Results[0]).(*ast.Ident); ok && info.ObjectOf(id) == tParam && h.pre == "" {
+						if id, ok := unparen(r.Results[0]).(*ast.Ident); ok && info.ObjectOf(id) == acc && h.pre == "" {
 							h.pre = "empty index path → the type itself"
 						}
 					}
